@@ -6,6 +6,8 @@
 #include "celeritas/global/CoreState.hh"
 #include "celeritas/track/TrackInitData.hh"
 
+#include "ref_locator.hh"
+
 using namespace celeritas;
 
 namespace vt
@@ -469,6 +471,34 @@ void StateMonitor::on_iteration(IterRec const& it,
             if (s_post == S_ALIVE && r.vol_post >= 0 && r.mat_post != prob_.spec.volume_to_mat[r.vol_post])
                 fail("C05", "material", "post-step",
                      "material state differs from the material of the reported post-step volume", step_json());
+            // The reported volume contains the reported position (reference locator over the
+            // geometry definition).  Judged off boundaries, farther than 1e3 tolerances from
+            // every surface; every step of short runs, 1 in 8 afterwards.
+            if (prob_.locator && s_post == S_ALIVE && !r.boundary_post && (steps_ < 200000 || (steps_ & 7) == 0))
+            {
+                auto res = prob_.locator->locate(r.pos_post);
+                double tol = 1e3 * prob_.locator->tolerance_at(r.pos_post);
+                if (res.valid() && double(res.margin) > tol)
+                {
+                    if (res.global_volume != r.vol_post)
+                    {
+                        json j = step_json();
+                        j["locator_volume"] = res.global_volume;
+                        j["locator_margin"] = double(res.margin);
+                        bool msc_disp = r.msc_geom > 0 && r.action_post != prob_.ids.boundary;
+                        fail("C05", "volume", msc_disp ? "position-not-in-reported-volume/after-msc"
+                                                       : "position-not-in-reported-volume",
+                             "the reported post-step position is not inside the reported volume "
+                             "(independent point location from the geometry definition)",
+                             j);
+                    }
+                    else
+                        cells_.insert("C05/located/" + std::string(r.msc_geom > 0 ? "msc" : "nomsc") + "/" + along);
+                    rep_.observe("c05_positions_located");
+                }
+                else
+                    rep_.observe("c05_positions_untestable_near_surface_or_invalid");
+            }
             // remaining mean free paths
             if (s_along == S_ALIVE && r.action_along != prob_.ids.discrete && r.action_along != prob_.ids.tracking_cut)
             {
